@@ -84,7 +84,7 @@ def suites(tier, seed):
             name = "c17_%s_n%d" % (site["name"], n)
             src += harness_text(site, name)
             stubs |= set(rs.stub_names(("barrier", "fmt") + tuple(site["stubs"])))
-            hs.append(Harness(name, unwind=max(70, n + 20), timeout=1800, site=site["name"],
+            hs.append(Harness(name, unwind=max(70, n + 60), timeout=1800, site=site["name"],
                               desc="%s, message length %d: symbolic key/nonce/ciphertext/tag/previous buffer contents, ideal MAC output != presented tag" % (site["name"], n),
                               bounds={"message_len": n, "adlen": site.get("adlen", 0)}))
     # vacuity twin: the same check on the encrypt side must see the buffer change
